@@ -483,3 +483,49 @@ func Tags(res *abci.ResponseDeliverTx) map[string]string {
 	}
 	return m
 }
+
+// copyMem copies every key of a DB into a new memdb.
+func copyMem(src db.DB) db.DB {
+	dst := db.NewMemDB()
+	it, err := src.Iterator(nil, nil)
+	if err != nil {
+		panic(err)
+	}
+	defer it.Close()
+	for ; it.Valid(); it.Next() {
+		k := append([]byte{}, it.Key()...)
+		v := append([]byte{}, it.Value()...)
+		if err := dst.Set(k, v); err != nil {
+			panic(err)
+		}
+	}
+	return dst
+}
+
+// MemImage is a copy of the three stores of a memdb node at a block boundary.
+type MemImage struct {
+	State, Events, App db.DB
+	Opts               NodeOpts
+}
+
+// Image copies the committed data of a memdb node (only valid between blocks).
+func (n *Node) Image() *MemImage {
+	if n.Opts.Dir != "" {
+		panic("Image needs a memdb node")
+	}
+	return &MemImage{State: copyMem(n.rawState), Events: copyMem(n.rawEvents), App: copyMem(n.rawApp), Opts: n.Opts}
+}
+
+// Boot starts a new application instance over a private copy of the image (like a restart from identical disks).
+func (im *MemImage) Boot() *Node {
+	n := &Node{Opts: im.Opts}
+	n.rawState, n.rawEvents = copyMem(im.State), copyMem(im.Events)
+	n.Opts.Wrap = nil
+	n.Opts.SnapshotInterval = 0
+	// the constructor opens its own (empty) app DB; swap the copied one in before anything is read again
+	app := copyMem(im.App)
+	n.open()
+	n.App.VerifAppDB().VerifWrapDB(func(db.DB) db.DB { return app })
+	n.rawApp = app
+	return n
+}
